@@ -244,11 +244,11 @@ func decodePointsCompressed(d *decoder, level int, target []Point) {
 		return
 	}
 	for i := 0; i < numOffCenter; i++ {
-		idx := int(d.readUvarint())
+		idx := d.readUvarint()
 		if d.err != nil {
 			return
 		}
-		if idx >= len(target) {
+		if idx >= uint64(len(target)) {
 			d.err = fmt.Errorf("off center index = %d, should be < len(target) = %d", idx, len(target))
 			return
 		}
